@@ -958,6 +958,55 @@ def _code_body_start(
     return min(body_positions) if len(body_positions) > 0 else None
 
 
+def _same_code(a: Any, b: Any) -> bool:
+    "Two code objects that do the same thing (where they were compiled from does not matter)"
+    if not (inspect.iscode(a) and inspect.iscode(b)):
+        return type(a) is type(b) and repr(a) == repr(b)
+    return (
+        a.co_code == b.co_code
+        and a.co_names == b.co_names
+        and a.co_varnames == b.co_varnames
+        and a.co_freevars == b.co_freevars
+        and a.co_cellvars == b.co_cellvars
+        and len(a.co_consts) == len(b.co_consts)
+        and all(_same_code(c_a, c_b) for c_a, c_b in zip(a.co_consts, b.co_consts))
+    )
+
+
+def _could_be_the_code(ast_source: Callable, lda: ast.Lambda, source_lines: List[str]) -> bool:
+    """`False` if python kept no source position for the body of `ast_source` (it keeps none
+    for a constant body, or when told not to with `-X no_debug_ranges`) and the lambda `lda`
+    found in the source does not compile to what `ast_source` runs: it can't be the callable
+    then, whatever name stands in front of it."""
+    code = getattr(ast_source, "__code__", None)
+    if code is None or _code_body_start(ast_source, source_lines) is not None:
+        return True
+    try:
+        # The variables the callable takes from an enclosing function have to come from an
+        # enclosing function here too.
+        maker = ast.Lambda(
+            args=ast.arguments(
+                posonlyargs=[],
+                args=[ast.arg(arg=name) for name in code.co_freevars],
+                kwonlyargs=[],
+                kw_defaults=[],
+                defaults=[],
+            ),
+            body=copy.deepcopy(lda),
+        )
+        outer = compile(
+            ast.fix_missing_locations(ast.Expression(body=maker)), "<candidate>", "eval"
+        )
+        makers = [c for c in outer.co_consts if inspect.iscode(c)]
+        inner = [c for c in makers[0].co_consts if inspect.iscode(c)] if len(makers) == 1 else []
+    except Exception:
+        return True
+    if len(inner) == 0:
+        return True
+    # (a default value that is itself a lambda comes first: the candidate is the last one)
+    return _same_code(inner[-1], code)
+
+
 def _lambda_at_code_position(
     ast_source: Callable,
     candidates: List[ast.Lambda],
@@ -1071,7 +1120,9 @@ def _parse_source_for_lambda(
                 first_argument_of_its_call.append(id(lda))
             # A lambda that starts on another line can't be the one we were handed (we might
             # have backed up to an earlier line to find the start of the expression).
-            if code_first_line is None or lambda_starts_on_line == code_first_line:
+            if (
+                code_first_line is None or lambda_starts_on_line == code_first_line
+            ) and _could_be_the_code(ast_source, lda, source):
                 lambdas_on_a_line[func_name.string if func_name is not None else None].append(
                     lda
                 )
